@@ -4,14 +4,17 @@ E3: one or two scheduling threads perform every sequence (length <= 3 / <= 2) ov
 {schedule, schedule_relative(0|1|2), cancel(previous), dispose} against one real
 EventLoopScheduler (both exit_if_empty values); the loop thread is created by the library
 through the controlled Thread.  All interleavings up to the preemption / clock-tick bounds
-with line-level scheduling points in eventloopscheduler.py.
+with line-level scheduling points in eventloopscheduler.py.  E4: vf/tla/EventLoop.tla (run loop at
+critical-section granularity, every program of a given size chosen nondeterministically, explicit
+clock) is checked by TLC over all interleavings; every E3 execution of the one-thread harnesses
+must be a trace of its labelled state graph.
 """
 from __future__ import annotations
 
 import itertools
 import time
 
-from .. import core, ilv, ilvrun
+from .. import core, ilv, ilvrun, tlabind
 
 PROPERTY = "C31"
 LEVEL = "model_checking"
@@ -40,6 +43,8 @@ class H:
         self.name = f"eventloop|eie={int(exit_if_empty)}|" + "||".join(",".join(p) for p in progs)
         self.sig = "eventloop"
         self.focus = ilv.focus_files("scheduler/eventloopscheduler.py")
+        # one scheduling thread, <= 3 operations: inside the configuration of the TLC binding graph
+        self.sync_log = len(progs) == 1 and len(progs[0]) <= 3
 
     def setup(self, run):
         from reactivex.scheduler import EventLoopScheduler
@@ -67,6 +72,8 @@ class H:
                                 me = ilv.cur()
                                 st["acts"].setdefault(aid, []).append({"start": len(run.events), "clock": run.clock, "thread": me.tid, "tname": me.name})
                                 run.log("start", aid)
+                                if run.sync_log is not None:
+                                    run.sync_log.append((me.tid, "work", 0, "harness"))
                                 ilv.point("in-action", voluntary=True)
                                 run.log("end", aid)
                                 st["acts"][aid][-1]["end"] = len(run.events)
@@ -100,6 +107,9 @@ class H:
         st = x.state
         if x.outcome != "quiescent":
             return []
+        if self.sync_log and getattr(self, "part", None) is not None and not getattr(x, "_bound", False):
+            x._bound = True
+            bind(self.part, self, x)
         P = []
         calls, acts = st["calls"], st["acts"]
         ev = x.events
@@ -171,6 +181,44 @@ class H:
         return P[:3]
 
 
+GRAPHS: dict = {}
+MODEL_LABEL = {"Gather": "RL", "Decide": "RL", "InvokeRun": "W"}
+TAU = ("Tick", "SPre", "Cancel", "InvokeSkip", "InvokeDone", "Wake")
+
+
+def relabel(lab):
+    name = lab.split("(")[0]
+    return MODEL_LABEL.get(name, lab)  # SchedLock(t) / DisposeLock(t) keep their thread parameter
+
+
+def project(x):
+    harness = {t.tid: i for i, t in enumerate([t for t in x.threads if t.harness and t.name != "main"], 1)}
+    out = []
+    for (tid, kind, _o, where) in x.sync_log or ():
+        if kind == "work":
+            out.append("W")
+        elif kind != "acq":
+            continue
+        elif where == "EventLoopScheduler.schedule_absolute":
+            out.append(f"SchedLock({harness.get(tid, 0)})")
+        elif where == "EventLoopScheduler.dispose":
+            out.append(f"DisposeLock({harness.get(tid, 0)})")
+        elif where == "EventLoopScheduler.run":
+            out.append("RL")
+    return out
+
+
+def bind(part, h, x):
+    g = GRAPHS.get(h.eie)
+    if g is None:
+        return
+    labels = project(x)
+    ok, at = g.accepts(labels, lambda l: l.split("(")[0] in TAU)
+    part.count("tla_traces_accepted" if ok else "tla_traces_rejected")
+    if not ok and len(part.notes) < 3:
+        part.notes.append(f"EventLoop.tla rejects implementation trace of {h.name}: {labels} at position {at} (model/code structure mismatch; verdict rests on the direct oracle)")
+
+
 def progs(maxlen, ops=OPS):
     out = []
     for n in range(1, maxlen + 1):
@@ -204,21 +252,71 @@ def bounds(tier):
     return (1, 1) if tier == "quick" else (2, 1)
 
 
-def shard(part, shard_i, nshards, tier, seed, deadline):
+def shard(part, shard_i, nshards, tier, seed, deadline, dots=None):
     ilv.install()
     PB, TB = bounds(tier)
+    if dots and not GRAPHS:
+        for eie, path in dots.items():
+            GRAPHS[eie] = tlabind.Graph(open(path).read(), relabel)
     hs = harnesses(tier)
     for i, h in enumerate(hs):
         if (i + seed) % nshards == shard_i:
+            h.part = part
             ilvrun.explore_all(part, [h], 0, 1, PB, TB, deadline, horizon=10.0)
+    for eie, g in GRAPHS.items():
+        for e in g.used:
+            part.counters["tla_edge:%s:%x" % (eie, core.h64(e))] = 1
+        g.used = set()
 
 
 def run(ctx):
     PB, TB = bounds(ctx.tier)
     ctx.bounds = {"PB": PB, "TB": TB, "harnesses": len(harnesses(ctx.tier))}
     ctx.assumptions = ["preemption at synchronisation operations and line boundaries of eventloopscheduler.py", "Condition.notify wakes waiters FIFO; no spurious wake-ups"]
-    ctx.sharded(shard, nshards=min(len(harnesses(ctx.tier)), max(1, ctx.workers) * 6))
-    ilvrun.finish_cov(ctx, ctx.total)
+    import os
+    import tempfile
+
+    # E4: TLC over all interleavings of the run-loop model (every program of the given size, both exit_if_empty values)
+    cfgs = [(1, 3, 3, "FALSE"), (1, 3, 3, "TRUE"), (2, 1, 2, "FALSE"), (2, 1, 2, "TRUE")] if ctx.tier == "quick" else [(2, 2, 3, "FALSE"), (2, 2, 3, "TRUE"), (1, 3, 3, "FALSE"), (1, 3, 3, "TRUE")]
+    vers = []
+    for (ns, k, maxt, eie) in cfgs:
+        cfg = tempfile.NamedTemporaryFile("w", suffix=".cfg", dir=tlabind.TLA_DIR, delete=False)
+        cfg.write(f"CONSTANTS NS = {ns}\n          K = {k}\n          MaxT = {maxt}\n          ExitIfEmpty = {eie}\nINIT Init\nNEXT Next\nINVARIANTS AtMostOnce ImmediateFIFO NoLostWakeup WaitCoversEarliest OneLoopThread\n")
+        cfg.close()
+        try:
+            v = tlabind.tlc_run("EventLoop.tla", os.path.basename(cfg.name), workers=max(1, min(16, ctx.workers)), timeout=2400)
+        finally:
+            os.unlink(cfg.name)
+        v["config"] = f"NS={ns} K={k} MaxT={maxt} ExitIfEmpty={eie}"
+        vers.append(v)
+        if not v["ok"]:
+            ctx.total.violation("tla|EventLoop.tla-invariant-violated", f"TLC reports an invariant violation in EventLoop.tla ({v['config']}; the abstract model, not the code): " + v["tail"][-600:], {"mode": "tla"})
+    dots, model_edges = {}, 0
+    for eie, name in ((False, "EventLoop_bind_false.cfg"), (True, "EventLoop_bind_true.cfg")):
+        b = tlabind.tlc_run("EventLoop.tla", name, dump=True)
+        if b["dot"]:
+            model_edges += tlabind.Graph(b["dot"]).nedges
+            f = tempfile.NamedTemporaryFile("w", suffix=".dot", delete=False)
+            f.write(b["dot"])
+            f.close()
+            dots[eie] = f.name
+    try:
+        ctx.sharded(shard, extra=(dots,), nshards=min(len(harnesses(ctx.tier)), max(1, ctx.workers) * 6))
+    finally:
+        for pth in dots.values():
+            os.unlink(pth)
+    ilvrun.finish_cov(ctx, ctx.total, sum(v["distinct"] for v in vers), sum(v["states_generated"] for v in vers))
+    edges = [k for k in ctx.total.counters if k.startswith("tla_edge:")]
+    acc, rej = ctx.total.counters.get("tla_traces_accepted", 0), ctx.total.counters.get("tla_traces_rejected", 0)
+    ctx.cov["tla"] = {
+        "model": "vf/tla/EventLoop.tla",
+        "tlc_runs": [{"config": v["config"], "ok": v["ok"], "distinct_states": v["distinct"], "states_generated": v["states_generated"], "depth": v["depth"]} for v in vers],
+        "binding_config": "NS=1 scheduling thread, K=3 operations (any program), MaxT=2, both exit_if_empty values", "binding_graph_edges": model_edges,
+        "impl_traces_accepted": acc, "impl_traces_rejected": rej, "model_edges_exercised_by_impl_traces": len(edges), "model_bound": bool(acc and not rej),
+        "not_bound": "harnesses with two scheduling threads are judged by the direct oracle only",
+    }
+    for k in edges:
+        del ctx.total.counters[k]
 
 
 def replay(case):
